@@ -46,7 +46,7 @@ func genRecord(t *rapid.T, i int) ref.SuiteRecord {
 }
 
 func TestCipherSuites(t *testing.T) {
-	ev.Check(t, "TestCipherSuites", ev.PickN(3000, 160000), func(t *rapid.T) {
+	ev.Check(t, "TestCipherSuites", ev.PickN(3000, 500000), func(t *rapid.T) {
 		w := hx.NewWorld(rapid.Uint64().Draw(t, "seed"), true)
 		target := rapid.IntRange(0, 80).Draw(t, "targetLength")
 		var recs []ref.SuiteRecord
